@@ -280,9 +280,10 @@ func runFileSink(rc *RunCtx, prop string, crash bool, faults bool) {
 	for w := 0; w < nWriters; w++ {
 		nOps := 1 + tp.Choose(12, "nops")
 		type step struct {
-			kind string
-			ev   *fsEvent
-			d    time.Duration
+			kind   string
+			ev     *fsEvent
+			d      time.Duration
+			silent bool // rmdir: nobody tells the sink (no Reopen follows)
 		}
 		var prog []step
 		var pd []string
@@ -315,8 +316,16 @@ func runFileSink(rc *RunCtx, prop string, crash bool, faults bool) {
 				prog = append(prog, step{kind: "reopen"})
 				pd = append(pd, "reopen")
 			case c < 17 && seqMode && tp.Choose(3, "rmdir") == 0:
-				prog = append(prog, step{kind: "rmdir"})
-				pd = append(pd, "remove-directory+reopen")
+				if !sink.TimestampOnlyOnRotate && tp.Choose(2, "rmdir-silently") == 0 {
+					// nobody tells the sink: it keeps writing to the file it holds; the next file it creates
+					// (a rotation) needs the directory again. (Not with TimestampOnlyOnRotate: renaming the
+					// active file of a directory that is gone cannot succeed.)
+					prog = append(prog, step{kind: "rmdir", silent: true})
+					pd = append(pd, "remove-directory")
+				} else {
+					prog = append(prog, step{kind: "rmdir"})
+					pd = append(pd, "remove-directory+reopen")
+				}
 			case c < 17:
 				prog = append(prog, step{kind: "extrename"})
 				pd = append(pd, "external-rename+reopen")
@@ -364,6 +373,14 @@ func runFileSink(rc *RunCtx, prop string, crash bool, faults bool) {
 					os.RemoveAll(logDir)
 					preDecoysGone = true
 					simrt.Probe("fs.directory-removed")
+					if st.silent {
+						if seqMode {
+							model.preDecoys = false
+							model.dirGone = model.opened // (a sink that has no file yet creates everything on its first write)
+						}
+						simrt.Probe("fs.directory-removed-silently")
+						break
+					}
 					err := sink.Reopen()
 					if seqMode {
 						model.preDecoys = false
@@ -603,6 +620,21 @@ func checkRetention(rc *RunCtx, sim *simrt.Sim, sink *el.FileSink, logDir, base,
 			rc.Failf("C08.lost-file", "foreign", "the sink deleted %q, which is not one of its own %s-<timestamp>%s files: a sibling sink logging there loses every event it acknowledged", name, base, ext)
 		}
 	}
+	// the (last) name under which each file was opened
+	nameOf := map[int]string{}
+	for _, o := range fs.Opens {
+		nameOf[o.File] = filepath.Base(o.Path)
+	}
+	for _, op := range fs.Ops {
+		if op.Op == "rename" && op.Errno == 0 {
+			for f, n := range nameOf {
+				if n == filepath.Base(op.Path) {
+					nameOf[f] = filepath.Base(op.Path2)
+				}
+			}
+		}
+	}
+	belowLimitReported := false
 	seenPresentInNamespace := false
 	for _, fi := range files {
 		name, ok := present[fi.ino]
@@ -622,6 +654,32 @@ func checkRetention(rc *RunCtx, sim *simrt.Sim, sink *el.FileSink, logDir, base,
 		}
 		if seenPresentInNamespace {
 			rc.Failf("C08.lost-file", "not-a-suffix", "a file holding acknowledged events %v was removed although an older file of the sink's name space still exists: what remains is not a suffix", fi.acked)
+		}
+		// the retention limit removes files only while MORE than MaxFiles closed files exist: whenever the
+		// sink has removed one, at least MaxFiles closed files (the active one not counted) are still there
+		// (only in runs without operator renames: a file the retention counted may be renamed away afterwards)
+		if removedBySink[nameOf[fi.ino]] && !belowLimitReported && len(renamedPaths) == 0 {
+			closed := 0
+			activeName := filepath.Base(activePath(sim))
+			if n := len(fs.Opens); n > 0 {
+				for _, op := range fs.Ops {
+					if op.Op == "close" && op.Path == fs.Opens[n-1].Path && op.Step > fs.Opens[n-1].Step {
+						activeName = "" // (a process killed in the middle of a rotation: the last file is closed already)
+					}
+				}
+			}
+			for _, en := range ents {
+				name := en.Name()
+				// (every file that matches <base>-*<ext> counts, a sibling's such as <base>-audit<ext> included:
+				// the statement does not say whose files fill the limit, so the check sides with the sink)
+				if ok, _ := filepath.Match(base+"-*"+ext, name); ok && name != activeName {
+					closed++
+				}
+			}
+			if closed < sink.MaxFiles {
+				belowLimitReported = true
+				rc.Failf("C08.lost-file", "below-retention-limit", "the sink removed the file holding acknowledged events %v although only %d closed files matching its pattern remain (MaxFiles %d): only files beyond the retention limit may be removed\npresent: %v, active: %s, removed by the sink: %v", fi.acked, closed, sink.MaxFiles, present, activeName, removedBySink)
+			}
 		}
 	}
 	// files renamed away by the operator keep their content and are never removed
@@ -706,6 +764,7 @@ type fsModel struct {
 	opsBefore    int
 	stamps       []int64 // timestamps of the sink's own timestamped files in creation order
 	uncertain    int
+	dirGone      bool // the directory was removed behind the sink's back: the file it holds is unlinked until it opens the next one
 }
 
 func (m *fsModel) before(e *fsEvent) {
@@ -729,6 +788,7 @@ func (m *fsModel) afterReopen(err error) {
 	}
 	m.opened = true
 	m.bytes = 0
+	m.dirGone = false
 	m.checkCounters("after Reopen")
 	m.checkDir("after Reopen", false)
 }
@@ -774,6 +834,10 @@ func (m *fsModel) after(e *fsEvent, tb, ta time.Time) {
 	m.opened = true
 	m.bytes += int64(len(e.Data))
 	m.checkCounters(fmt.Sprintf("after write #%d", e.ID))
+	if m.dirGone && len(newOpens) == 0 {
+		return // written to the unlinked file: nothing to look at until the sink opens its next file
+	}
+	m.dirGone = false
 	m.checkDir(fmt.Sprintf("after write #%d", e.ID), rotated)
 }
 
